@@ -24,7 +24,8 @@ pub fn prop() -> Prop {
         rule: "explicit-state BFS by history replay over a real CryptoCore pair per cipher; alphabet Seal (<=5), Deliver(i) (any sealed datagram, any number of times), \
                Forge(i) (counter raised, fails authentication), Tick, Rotate (next key id at receiver then sender); states deduplicated on a canonical form \
                (key classes, window thresholds and counters as offsets, oracle ages); every transition is an execution of the implementation; in every state all \
-               datagrams sealed so far plus a fresh one are probed against the history-only oracle. distinct_nontrivial = canonical states",
+               datagrams sealed so far plus a fresh one are probed against the history-only oracle. Plus: PeerCrypto lifetimes (3 ciphers x 2 orientations x 260/1300 \
+               rounds, every datagram replayed 0/1/2/3/5 ticks later) and node-level verbatim re-injections (C09's executions with the replay-window oracle). distinct_nontrivial = canonical states",
         run,
         replay,
     }
